@@ -225,6 +225,11 @@ func init() {
 		g.FeeProb = 0.5
 		g.MaxTx = 8
 		g.Hostile = 0.35
+		if c.Job.Prop == "C18" || c.Job.Prop == "C19" {
+			// transactions carrying several messages (only under the block-level and replica oracles:
+			// the per-transaction monitors of other properties attribute a transaction to one message)
+			g.MultiMsg = 0.15
+		}
 		// rich base state
 		g.Free(c.N(40, 80), g.StdDt)
 		edges := ParamEdges(w)
